@@ -517,9 +517,10 @@ def i_BBS7(i,fmap):
 
 @__npc
 def i_WAI(i,fmap):
-    raise NotImplementedError
+    # wait for interrupt: execution resumes with the next instruction
+    pass
 
-@__npc
 def i_STP(i,fmap):
-    raise NotImplementedError
+    # stop the clock until reset: there is no next instruction
+    fmap[pc] = top(pc.size)
 
